@@ -175,6 +175,7 @@ var (
 	cfg       Config
 	events    []Event
 	ticks     int
+	mainTicks int
 	budget    int
 	delivered int
 	chunkIdx  int
@@ -222,6 +223,7 @@ func Run(c Config, main func()) (res Result) {
 	cfg = c
 	events = nil
 	ticks = 0
+	mainTicks = 0
 	budget = c.Budget
 	if budget <= 0 {
 		budget = DefaultBudget
@@ -660,7 +662,12 @@ func Tick() {
 		gcIdx++
 		runtime.GC()
 	}
-	if ticks > budget {
+	// the step budget bounds the MAIN task (the program's own progress); what goroutines of the
+	// program do in the background while simulated time passes is bounded separately, generously
+	if cur == mainTask {
+		mainTicks++
+	}
+	if mainTicks > budget || ticks > 200*budget {
 		if !budgetHit {
 			budgetHit = true
 			record("BUDGET", "", int64(ticks))
